@@ -553,6 +553,14 @@ class Splicer:
                 ghost_check(slines, "after_loop")
                 close = match_close(toks, loops[idx][1])
                 ins(toks[close].end, "\n" + block + "\n", "ghost", **meta)
+            elif name == "loop_end":
+                # just before the closing brace of the N-th loop's body
+                idx = int(args.strip().split()[0])
+                if idx >= len(loops):
+                    raise SpliceError("lost anchor: %s has %d loops, contract names loop %d" % (key, len(loops), idx))
+                ghost_check(slines, "loop_end")
+                close = match_close(toks, loops[idx][1])
+                ins(toks[close].start, "\n" + block + "\n", "ghost", **meta)
             elif name == "body_end":
                 ghost_check(slines, "body_end")
                 ins(toks[body_close].start, "\n" + block + "\n", "ghost", **meta)
@@ -702,13 +710,30 @@ class Splicer:
                     kw = akv.get("kw")
                     nth = int(akv.get("nth", "0"))
                     cands = [i for (i, d) in starts if d == depth and (kw is None or toks[i].text == kw)]
-                    if nth >= len(cands):
-                        raise SpliceError("lost anchor: %s: statement depth=%d kw=%s nth=%d not found (%d candidates)" %
-                                          (key, depth, kw, nth, len(cands)))
-                    ti = cands[nth]
-                if "expect" in akv and not re.match(akv["expect"], text[toks[ti].start:]):
-                    raise SpliceError("lost anchor: %s: statement at depth=%s kw=%s nth=%s does not look like /%s/: %r" %
-                                      (key, akv.get("depth"), akv.get("kw"), akv.get("nth"), akv["expect"], text[toks[ti].start:toks[ti].start + 50]))
+                    ti = cands[nth] if nth < len(cands) else None
+                    why = None
+                    if ti is None:
+                        why = "statement depth=%d kw=%s nth=%d not found (%d candidates)" % (depth, kw, nth, len(cands))
+                    elif "expect" in akv and not re.match(akv["expect"], text[toks[ti].start:]):
+                        why = "statement at depth=%s kw=%s nth=%s does not look like /%s/: %r" % (
+                            akv.get("depth"), akv.get("kw"), akv.get("nth"), akv["expect"], text[toks[ti].start:toks[ti].start + 50])
+                    if why is not None and "call" in akv:
+                        # second way to name the same place: the statement that contains the K-th call of NAME (survives a
+                        # restructured statement list; the ordinal form survives an exchanged callee)
+                        cname, _, ck = akv["call"].partition(":")
+                        ck = int(ck or "0")
+                        calls = [i for i in range(body_open, body_close) if toks[i].kind == "ident" and toks[i].text == cname
+                                 and toks[i + 1].text == "("]
+                        if ck < len(calls):
+                            prev = [i for (i, d) in starts if i <= calls[ck]]
+                            if prev:
+                                ti, why = prev[-1], None
+                                self.log.append("%s: anchor by ordinal lost, placed by call %s" % (key, akv["call"]))
+                    if why is not None:
+                        raise SpliceError("lost anchor: %s: %s" % (key, why))
+                if args.strip().startswith("tail") and "expect" in akv and not re.match(akv["expect"], text[toks[ti].start:]):
+                    raise SpliceError("lost anchor: %s: tail expression does not look like /%s/: %r" %
+                                      (key, akv["expect"], text[toks[ti].start:toks[ti].start + 50]))
                 ins(toks[ti].start, "\n" + block + "\n", "ghost", **meta)
             elif name == "all":
                 pass        # handled with the R11 rewrite below
